@@ -480,6 +480,7 @@ type FuncSpec struct {
 	Kind      string // func | lib | iface
 	Props     []string
 	Requires  []*Clause
+	Invariants []*Clause // assumed data-structure invariants (not checked at call sites)
 	Ensures   []*Clause
 	Modifies  []Expr
 	HasMod    bool
@@ -731,6 +732,13 @@ func (db *SpecDB) LoadSpecFile(path, pkgPath string) error {
 					return err
 				}
 				cur.Requires = append(cur.Requires, c)
+			case "invariant":
+				// data-structure invariant: assumed on entry, NOT checked at call sites (listed as an assumption)
+				c, err := mk("invariant", rest)
+				if err != nil {
+					return err
+				}
+				cur.Invariants = append(cur.Invariants, c)
 			case "ensures":
 				c, err := mk("ensures", rest)
 				if err != nil {
